@@ -272,6 +272,24 @@ func c01Systematic() []c01Case {
 		} {
 			c01Sys = append(c01Sys, c01Case{E: e, Data: ld, Cell: "varying-index", Pos: loopPos})
 		}
+		// loop functions on the variables of three nested loops (a foreach, a for over range, a foreach), from the
+		// innermost body: each names its own loop, however many loops lie in between
+		nestPos := -1
+		for k, p := range c01Positions {
+			if p.name == "nested-loops" {
+				nestPos = k
+			}
+		}
+		lf := func(fn, v string) ref.Expr { return &ref.Call{Fn: fn, Args: []ref.Expr{&ref.DataRef{Name: v}}} }
+		for _, v := range []string{"out", "mid", "it"} {
+			for _, fn := range []string{"index", "isFirst", "isLast"} {
+				c01Sys = append(c01Sys, c01Case{E: lf(fn, v), Data: dataFor(), Cell: "loop-function:" + fn + ":" + v, Pos: nestPos})
+			}
+		}
+		c01Sys = append(c01Sys,
+			c01Case{E: &ref.Binary{Op: "+", L: &ref.Binary{Op: "*", L: lf("index", "out"), R: &ref.Lit{V: ref.Int(100)}}, R: &ref.Binary{Op: "+", L: &ref.Binary{Op: "*", L: lf("index", "mid"), R: &ref.Lit{V: ref.Int(10)}}, R: lf("index", "it")}}, Data: dataFor(), Cell: "loop-function:all", Pos: nestPos},
+			c01Case{E: &ref.Tern{C: &ref.Binary{Op: "and", L: lf("isLast", "out"), R: lf("isFirst", "it")}, A: &ref.DataRef{Name: "out"}, B: &ref.DataRef{Name: "mid"}}, Data: dataFor(), Cell: "loop-function:mixed", Pos: nestPos},
+			c01Case{E: &ref.Binary{Op: "+", L: &ref.DataRef{Name: "out"}, R: &ref.Binary{Op: "+", L: &ref.DataRef{Name: "mid"}, R: &ref.DataRef{Name: "it"}}}, Data: dataFor(), Cell: "loop-function:vars", Pos: nestPos})
 		// compile-time globals of every kind, alone and as operands
 		gnames := []string{"G_NULL", "G_TRUE", "G_FALSE", "G_ZERO", "G_INT", "G_NEG", "G_BIG", "G_FLOAT", "app.name", "app.empty", "a.b.c.DEEP", "G_LIST", "G_MAP"}
 		for _, gn := range gnames {
@@ -474,6 +492,11 @@ var c01Positions = []struct {
 		list := &ref.ListLit{Items: []ref.Expr{&ref.Lit{V: ref.Int(0)}, &ref.Lit{V: ref.Int(1)}, &ref.Lit{V: ref.Int(2)}, &ref.Lit{V: ref.Int(3)}}}
 		return []ref.Node{&ref.Foreach{Var: "it", List: list, Body: []ref.Node{&ref.Print{E: e}, &ref.Raw{Text: ";"}}, Keyword: "foreach"}}
 	}},
+	{"nested-loops", func(e ref.Expr, v ref.Value, st ref.Status) []ref.Node {
+		inner := &ref.Foreach{Var: "it", List: &ref.ListLit{Items: []ref.Expr{&ref.Lit{V: ref.Int(0)}, &ref.Lit{V: ref.Int(1)}, &ref.Lit{V: ref.Int(2)}}}, Body: []ref.Node{&ref.Print{E: e}, &ref.Raw{Text: ";"}}, Keyword: "foreach"}
+		mid := &ref.Foreach{Var: "mid", List: &ref.Call{Fn: "range", Args: []ref.Expr{&ref.Lit{V: ref.Int(2)}}}, Body: []ref.Node{inner, &ref.Raw{Text: "|"}}, Keyword: "for"}
+		return []ref.Node{&ref.Foreach{Var: "out", List: &ref.ListLit{Items: []ref.Expr{&ref.Lit{V: ref.Int(7)}, &ref.Lit{V: ref.Int(8)}}}, Body: []ref.Node{mid, &ref.Raw{Text: "/"}}, Keyword: "foreach"}}
+	}},
 	{"content-param", func(e ref.Expr, v ref.Value, st ref.Status) []ref.Node {
 		return []ref.Node{&ref.CallT{Target: "t.show", NameSrc: ".show", Params: []ref.Param{{Name: "p", IsContent: true, Content: []ref.Node{&ref.Print{E: e, Dirs: []ref.Dir{{Name: "noAutoescape"}}}}}}}}
 	}},
@@ -508,7 +531,7 @@ func c01Program(e ref.Expr, d map[string]ref.Value, pos int, globals map[string]
 	}
 	sortStrings(names)
 	for _, k := range names {
-		if k == "it" || k == "v" {
+		if k == "it" || k == "v" || (c01Positions[pos].name == "nested-loops" && (k == "out" || k == "mid")) {
 			continue
 		}
 		t.Params = append(t.Params, ref.ParamDecl{Name: k, Optional: true})
